@@ -106,7 +106,10 @@ func (p *policyRulesMergeContext) merge(policy *PolicyRules) {
 		existing, found := p.identityRules[id.Name]
 
 		if !found {
-			p.identityRules[id.Name] = id
+			// Store a copy: later merges overwrite fields of the stored rule, and the
+			// input policies are shared through the ACL caches.
+			cp := *id
+			p.identityRules[id.Name] = &cp
 			continue
 		}
 
@@ -124,7 +127,10 @@ func (p *policyRulesMergeContext) merge(policy *PolicyRules) {
 		existing, found := p.identityPrefixRules[id.Name]
 
 		if !found {
-			p.identityPrefixRules[id.Name] = id
+			// Store a copy: later merges overwrite fields of the stored rule, and the
+			// input policies are shared through the ACL caches.
+			cp := *id
+			p.identityPrefixRules[id.Name] = &cp
 			continue
 		}
 
@@ -224,7 +230,10 @@ func (p *policyRulesMergeContext) merge(policy *PolicyRules) {
 		existing, found := p.serviceRules[sp.Name]
 
 		if !found {
-			p.serviceRules[sp.Name] = sp
+			// Store a copy: later merges overwrite fields of the stored rule, and the
+			// input policies are shared through the ACL caches.
+			cp := *sp
+			p.serviceRules[sp.Name] = &cp
 			continue
 		}
 
@@ -242,7 +251,10 @@ func (p *policyRulesMergeContext) merge(policy *PolicyRules) {
 		existing, found := p.servicePrefixRules[sp.Name]
 
 		if !found {
-			p.servicePrefixRules[sp.Name] = sp
+			// Store a copy: later merges overwrite fields of the stored rule, and the
+			// input policies are shared through the ACL caches.
+			cp := *sp
+			p.servicePrefixRules[sp.Name] = &cp
 			continue
 		}
 
